@@ -656,11 +656,16 @@ impl Version {
 
         for level in self.iter_levels() {
             // Run count
-            #[expect(
-                clippy::cast_possible_truncation,
-                reason = "there are always less than 256 runs"
-            )]
-            writer.write_u8(level.len() as u8)?;
+            //
+            // NOTE: The run count is stored in a single byte, so a level with more runs
+            // cannot be represented - refuse to persist it instead of writing a truncated
+            // count (which would make the version file unreadable)
+            let run_count = u8::try_from(level.len()).map_err(|_| {
+                crate::Error::Io(std::io::Error::other(
+                    "too many runs in level to persist version (max 255)",
+                ))
+            })?;
+            writer.write_u8(run_count)?;
 
             for run in level.iter() {
                 // Table count
